@@ -53,7 +53,7 @@ STUBBED = ["socket/select/time/pinger/random (simkit)", "links and hosts "
            "(harness)", "DeferredSender (no back-pressure)"]
 EXPECT_PROBES = ["has_cycle", "one_way_link", "parallel_links", "link_down",
                  "link_up", "control_reset", "silent_switch", "converged",
-                 "reset_with_probe_in_flight",
+                 "reset_with_probe_in_flight", "wire_pads_short_frames",
                  "flood_sim", "big_dpid", "big_port", "port_deleted",
                  "port_readded"]
 
@@ -83,6 +83,7 @@ def gen_plan(seed, tier):
          "disc_no_flow": r.chance(0.2), "disc_explicit_drop": r.chance(0.75),
          "disc_eat_early": r.chance(0.2),
          "st_no_flood": r.chance(0.2), "st_hold_down": r.chance(0.2)}
+  cfg["wire_pads"] = Rng(mix(seed, "pads")).chance(0.5)
   nextport = {d: 1 for d in dpids}
   big = r.chance(0.3)
 
@@ -228,6 +229,11 @@ def _drive(sim, plan, known, hit):
   net = NetWorld(sim, cfg)
   net.boot()
   net.link_delay_ticks = cfg.get("link_delay", 0)
+  if cfg.get("wire_pads"):
+    # the medium brings short frames up to the Ethernet minimum (zeros
+    # behind the probe's END TLV)
+    net.pad_min = 60
+    sim.probes["wire_pads_short_frames"] += 1
   D.random = lambda: sim.ch.uniform("disc_random", 0.0, 1.0, 0.0)
   D.launch(link_timeout=cfg["link_timeout"],
            no_flow=bool(cfg.get("disc_no_flow")),
